@@ -13,7 +13,7 @@ type cancelCtx struct {
 	std.Context // parent
 	done        chan struct{}
 	err         error
-	children    map[*cancelCtx]struct{}
+	children    []*cancelCtx // creation order (no map: the race detector instruments runtime map helpers)
 	deadline    time.Time
 	hasDeadline bool
 	env         *sched.EnvHandle
@@ -65,12 +65,18 @@ func (c *cancelCtx) cancelQuiet(err error, fromParent bool) {
 		c.env.Disarm()
 	}
 	sched.CloseQuiet(c.done)
-	for _, k := range sched.SortedKeys(kids) {
-		k.cancelQuiet(err, true)
+	for _, k := range kids {
+		if k != nil {
+			k.cancelQuiet(err, true)
+		}
 	}
 	if !fromParent {
 		if p, ok := c.Context.Value(&cancelKey).(*cancelCtx); ok {
-			delete(p.children, c)
+			for i, k := range p.children {
+				if k == c {
+					p.children[i] = nil
+				}
+			}
 		}
 	}
 }
@@ -84,9 +90,9 @@ func newCancel(parent Context) *cancelCtx {
 			return c
 		}
 		if p.children == nil {
-			p.children = map[*cancelCtx]struct{}{}
+			p.children = make([]*cancelCtx, 0, 16)
 		}
-		p.children[c] = struct{}{}
+		p.children = append(p.children, c)
 	} else if parent.Done() != nil {
 		// foreign cancelable parent: fall back to a watcher thread.
 		sched.Go(func() {
